@@ -19,13 +19,14 @@ CSQ = "skepticoin.coinstate.CoinState."
 DBS = "skepticoin.blockstore.DefaultBlockStore"
 
 # state indices
-NEW, PARENT, VBI, STORED, VALID, BULK, SERVED = range(7)
+NEW, PARENT, VBI, STORED, VALID, BULK, SERVED, APPLIED, REFUSED = range(9)
 
 
 def upd(s: State, **kw: Any) -> State:
     l = list(s)
     for k_, v in kw.items():
-        l[{"new": NEW, "parent": PARENT, "vbi": VBI, "stored": STORED, "valid": VALID, "bulk": BULK, "served": SERVED}[k_]] = v
+        l[{"new": NEW, "parent": PARENT, "vbi": VBI, "stored": STORED, "valid": VALID, "bulk": BULK, "served": SERVED,
+           "applied": APPLIED, "refused": REFUSED}[k_]] = v
     return tuple(l)
 
 
@@ -45,7 +46,10 @@ class RelayAutomaton(Automaton):
         self.seen: dict = {}
 
     def initial(self) -> List[State]:
-        return [(False, False, False, "no", False, False, False)]
+        return [(False, False, False, "no", False, False, False, False, False)]
+
+    def on_handler(self, state: State, types: Optional[List[str]]) -> Optional[State]:
+        return upd(state, refused=True)       # an exception was caught: the block (or its application) was refused
 
     def classify(self, ev: Event) -> Optional[str]:
         if ev.kind != "call" or ev.parts is None:
@@ -92,6 +96,8 @@ class RelayAutomaton(Automaton):
 
     def on_branch(self, state: State, test: Term, polarity: bool) -> Optional[State]:
         fact = test if polarity else mk_not(test)       # what holds on this branch
+        if fact == C(False):
+            return None                                 # `if True:` has no false branch
         if implies(fact, self.t_new):
             state = upd(state, new=True)
         if implies(fact, mk_not(self.t_orphan)):
@@ -116,7 +122,7 @@ class RelayAutomaton(Automaton):
             missing = [n for n, i in (("duplicate test", NEW), ("orphan drop", PARENT), ("structural validation", VBI)) if not state[i]]
             violation("%s is reachable without passing: %s" % (k, ", ".join(missing)))
         if k == "APPLY":
-            return [state]
+            return [upd(state, applied=True)]
         if k == "SAVE":
             return [upd(state, stored="buffered")]
         if k == "CLEAR":
@@ -183,12 +189,18 @@ def r09_flow(ck: Check) -> None:
             if s[SERVED] and not s[VALID] and not s[BULK]:
                 bad += 1
                 ck.violated("R09.3", "handle_block_received: exit with an unvalidated block in the served state", "", where, list(tr))
+            if kind == "return" and s[NEW] and s[PARENT] and not s[REFUSED] and not s[SERVED]:
+                bad += 1
+                ck.violated("R09.7", "handle_block_received: a new block whose parent is known is either refused by a validator or ends up in the served state",
+                            "an exit is reachable on which a new, connectable block was neither refused (no exception was caught) nor adopted: "
+                            "valid blocks of a competing branch / of the download are silently dropped", where, list(tr))
     ck.stats["exit_states"] = n_exit
     ck.stats["flow_events"] = run.event_count
     if not run.violations and not bad and not missing:
         ck.ok("R09.1", "handle_block_received: every effect is behind the duplicate test (block id not in prior state)", "", where)
         ck.ok("R09.2", "handle_block_received: orphan drop and structural rejection are effect-free", "", where)
         ck.ok("R09.3", "handle_block_received: served-as-validated, flush and relay only after validate_block_in_coinstate(block, prior) completed", "", where)
+        ck.ok("R09.7", "handle_block_received: a new block whose parent is known is either refused by a validator or ends up in the served state", "", where)
         ck.ok("R09.4", "handle_block_received: no exit (normal or exceptional, %d exit states) leaves an unvalidated block buffered; adopted blocks are flushed"
               % n_exit, "exceptional edges at every may-raise call that depends on the delivered message", where)
 
@@ -280,6 +292,19 @@ def r09_8(ck: Check) -> None:
                    "active peers = connected peers that completed the greeting in both directions")
 
 
+def r09_10(ck: Check) -> None:
+    """a peer that greets becomes an active peer (broadcasts go to peers that completed the greeting in both directions): the greeting
+    handler marks it so before anything that may return"""
+    s = ck.summ(RP + "handle_hello_message_received", 0)
+    sp = Spec(s, ("self", "header", "message"))
+    st = [e for e in s.events if e.kind == "store" and e.term == sp.term("self.hello_received")]
+    construct = "handle_hello_message_received sets hello_received = True unconditionally"
+    if len(st) == 1 and st[0].value == C(True) and not st[0].pc and not st[0].loops:
+        ck.ok("R09.10", construct, "", st[0].loc)
+    else:
+        ck.violated("R09.10", construct, "%s — a peer that is never marked greeted receives no relayed blocks or transactions" % [e.describe()[:120] for e in st], s.fi.loc)
+
+
 def r09_9(ck: Check) -> None:
     from .common import rule_eq
     rule_eq(ck, "R09.9", "skepticoin.datatypes.Block", ["header", "transactions"], "`block == new head` compares content")
@@ -319,6 +344,7 @@ def check(ck: Check) -> None:
     ck.run("R09.5", "buffer alias agreement", lambda: r09_5(ck))
     ck.run("R09.6", "relay exactly once", lambda: r09_6(ck))
     ck.run("R09.8", "relay fan-out", lambda: r09_8(ck))
+    ck.run("R09.10", "greeted peers become active", lambda: r09_10(ck))
     from .c13 import r13_6
     ck.run("R13.6", "the roll-back target of a rejected relayed block exists from start-up on", lambda: r13_6(ck))
     ck.run("R09.9", "what 'outside bulk download' and 'is the new head' mean", lambda: r09_9(ck))
